@@ -189,4 +189,8 @@ def frfRow (cases : List (L × List (Option α) × List X)) :
 
 end pipeline
 
+/-- the same tracked triple with the value negated (`mm.ext[:, 1] = -mm.ext[:, 0]`,
+`mm.ext_x[:, 1] = mm.ext_x[:, 0]` in `frf_data_recovery` / `psd_data_recovery`) -/
+def negTr {α X L : Type} [Neg α] (t : Tr α X L) : Tr α X L := ⟨t.v.map (fun v => -v), t.x, t.lab⟩
+
 end PyYetiVerif.Extrema
